@@ -75,6 +75,11 @@ SpecOf(t) ==
                      \o [j \in 1..Len(b) |-> SP(b[j].lam, PadBlock(b[j].P, na, 0))])
       [] t.k = "Product" ->         \* scalar multiple: Product(ScalarMul c, X)
             LET s == SpecOf(t.a[2]) IN [i \in 1..Len(s) |-> SP(QMul(t.a[1].p.c, s[i].lam), s[i].P)]
+      [] t.k = "Sum" ->             \* spectral shift: Sum(X, ScalarMul c) or Sum(ScalarMul c, X): lam + c, same projectors
+            LET xi == IF t.a[1].k = "ScalarMul" THEN 2 ELSE 1
+                s == SpecOf(t.a[xi])
+                c == t.a[3 - xi].p.c
+            IN Merge([i \in 1..Len(s) |-> SP(QAdd(s[i].lam, c), s[i].P)])
 
 \* trees for which SpecOf is defined
 RECURSIVE HasSpec(_)
@@ -85,6 +90,7 @@ HasSpec(t) ==
     \/ t.k \in {"Kronecker", "KronSum"} /\ Len(t.a) = 2 /\ HasSpec(t.a[1]) /\ HasSpec(t.a[2])
     \/ t.k = "BlockDiag" /\ Len(t.a) = 2 /\ t.p.mult = <<1, 1>> /\ HasSpec(t.a[1]) /\ HasSpec(t.a[2])
     \/ t.k = "Product" /\ Len(t.a) = 2 /\ t.a[1].k = "ScalarMul" /\ HasSpec(t.a[2])
+    \/ t.k = "Sum" /\ Len(t.a) = 2 /\ ((t.a[1].k = "ScalarMul" /\ HasSpec(t.a[2])) \/ (t.a[2].k = "ScalarMul" /\ HasSpec(t.a[1])))
 
 RECURSIVE SumLamP(_)
 SumLamP(s) == IF Len(s) = 1 THEN MScale(s[1].lam, s[1].P) ELSE MAdd(MScale(s[1].lam, s[1].P), SumLamP(Tail(s)))
